@@ -737,6 +737,107 @@ Section Sim.
       destruct (iter_body s len) as [[out s']|e|e|]; try exact HB. right. exact HB.
   Qed.
 
+  (* ---- the error of a failing iteration is an io::Error kind of the reader (never 0, the model's
+          "end of stream" status) -------------------------------------------------------------------- *)
+  Ltac err_tac :=
+    repeat match goal with
+           | |- Err _ = Err _ -> _ => let H := fresh "H" in intros H; inversion H; auto
+           | |- Ok _ = Err _ -> _ => discriminate
+           | |- Panic _ = Err _ -> _ => discriminate
+           | |- Fuel = Err _ -> _ => discriminate
+           | |- context [match ?x with _ => _ end] => destruct x; cbn [obind]
+           end.
+
+  Definition err_kind (e : Z) : Prop := e = E_INVALID_INPUT \/ e = E_UNEXPECTED_EOF \/ e = E_OTHER.
+
+  Lemma header_err s e : lzma2_chunk_header s = Err e -> err_kind e.
+  Proof.
+    unfold err_kind, lzma2_chunk_header, read_u8, read_u16_be, lzma2_decode_props, read_u8, rdec_prepare, lzwin_reset.
+    err_tac.
+  Qed.
+
+  Lemma body_unc_err s len e : m_is_lzma_chunk s = false -> iter_body s len = Err e -> err_kind e.
+  Proof.
+    intros Hlz. unfold err_kind, iter_body, lzwin_copy_uncompressed. rewrite Hlz. cbn [negb]. err_tac.
+  Qed.
+
+  Lemma body_lzma_err st s o len e : live s -> in_lzma st s o -> 0 < len -> iter_body s len = Err e -> err_kind e.
+  Proof.
+    intros (Hend & Herr & Hbytes) (u & c & hist & Hu & Hus & Hlz & Hnp & Hnd & Hco & Hw & Hcok & Hpd & Hrng & Hpr & Ho) Hlen.
+    destruct Hw as (R & Hsz & Hst & Hps). pose proof R as [_ [_ Hp2] _ _ _ _ _ Hpnn].
+    unfold iter_body. rewrite Hlz, Hus, Hco. cbn [negb].
+    set (m := Z.min u len).
+    set (wl := lzwin_set_limit (m_win s) m).
+    destruct (set_limit_rel (m_win s) hist m R ltac:(unfold m; lia)) as (Rl & Hpl).
+    fold wl in Rl, Hpl.
+    assert (Hwl : w_limit wl = Z.min (m + w_pos (m_win s)) (w_size (m_win s))) by reflexivity.
+    assert (Hwl1 : w_size wl = w_size (m_win s)) by reflexivity.
+    assert (Hwl2 : w_pos wl = w_pos (m_win s)) by reflexivity.
+    assert (Hwl3 : w_full wl = w_full (m_win s)) by reflexivity.
+    assert (Hwl5 : w_pending_len wl = w_pending_len (m_win s)) by reflexivity.
+    assert (Hwl6 : w_pending_dist wl = w_pending_dist (m_win s)) by reflexivity.
+    set (b := w_limit wl - w_pos wl).
+    assert (Hb : 0 <= b <= u) by (unfold b; rewrite Hwl, Hwl2; unfold m; lia).
+    pose proof (lzma_decode_abs c wl hist (m_rc s) (m_probs s) (Z.to_nat b) Rl
+                  ltac:(rewrite Hwl3; exact Hcok) Hpl ltac:(unfold b in *; lia)
+                  ltac:(rewrite Hwl5, Hwl6, Hwl3; exact Hpd)) as HA.
+    set (a0 := mkAstate c hist (w_size wl) (w_pending_len wl) (w_pending_dist wl)) in *.
+    destruct (run_rc (aproduce (Z.to_nat b) a0) (m_rc s) (m_probs s)) as [[[[s1 st1] d1] t1]|e0|e0|] eqn:Hrun.
+    - destruct HA as (w1 & Hdec & _). rewrite Hdec. cbn [obind].
+      pose proof (run_rc_pall _ _ (aproduce_status6 _ a0) _ _ _ _ _ Hrun) as Hst1. cbn [snd] in Hst1.
+      unfold err_kind. destruct Hst1 as [-> | ->].
+      + cbn [obind]. msimpl. destruct (lzwin_flush w1) as [out w3].
+        destruct (_ <? 0); [discriminate|]. destruct (_ && _); [|discriminate].
+        intros H; inversion H. left; reflexivity.
+      + intros H; inversion H. right; right; reflexivity.
+    - exfalso. exact (run_rc_pne _ (aproduce_pne _ a0) _ _ _ Hrun).
+    - rewrite HA. discriminate.
+    - rewrite HA. discriminate.
+  Qed.
+
+  Lemma iter_err st s o len e : SInv st s o -> 0 < len -> lzma2_iter s len = Err e -> err_kind e.
+  Proof.
+    intros (Hlive & [(d & Hb & Ho) | [Hu | Hl]]) Hlen; rewrite lzma2_iter_eq.
+    - pose proof Hb as (Hus & _). rewrite Hus. change (0 =? 0) with true. cbv iota.
+      pose proof (header_sim st s d Hlive Hb) as HH. pose proof (header_err s) as HE.
+      destruct (lzma2_chunk_header s) as [s1|e1|e1|]; cbn [obind]; try discriminate.
+      2:{ intros H; inversion H; subst. apply HE. reflexivity. }
+      destruct HH as [(He & _) | (He & Hl1 & [Hu1 | Hl1'])]; rewrite He; [discriminate| |].
+      + apply body_unc_err. destruct Hu1 as (u & hist & co & t & np & _ & _ & Hlz & _). exact Hlz.
+      + eapply body_lzma_err; eassumption.
+    - pose proof Hu as (u & hist & co & t & np & Hu0 & Hus & Hlz & _).
+      rewrite Hus. destruct (Z.eqb_spec u 0) as [X|_]; [lia|]. cbn [obind].
+      destruct Hlive as (Hend & Hrest). rewrite Hend. apply body_unc_err. exact Hlz.
+    - pose proof Hl as (u & c & hist & Hu0 & Hus & _).
+      rewrite Hus. destruct (Z.eqb_spec u 0) as [X|_]; [lia|]. cbn [obind].
+      pose proof Hlive as (Hend & Hrest). rewrite Hend. eapply body_lzma_err; eassumption.
+  Qed.
+
+  Lemma loop_err : forall fuel st s len acc o e,
+    SInv st s o -> 0 <= len -> lzma2_read_loop fuel s len acc = Err e -> err_kind e.
+  Proof.
+    induction fuel as [|f IH]; intros st s len acc o e HI Hlen Hr.
+    - cbn [lzma2_read_loop] in Hr. destruct (len <=? 0); discriminate.
+    - destruct (Z.eq_dec len 0) as [Hz|Hnz]; [rewrite l2_read_loop_done in Hr by lia; discriminate|].
+      rewrite l2_read_loop_step in Hr by lia.
+      pose proof (iter_sim st s o len HI ltac:(lia)) as HS. pose proof (iter_err st s o len) as HE.
+      destruct (lzma2_iter s len) as [[out s']|e1|e1|]; cbn [obind] in Hr; try discriminate.
+      2:{ inversion Hr; subst. apply HE; [exact HI | lia | reflexivity]. }
+      destruct HS as [(Hout & He & _) | (Hne & Hle & o' & HI' & Ho)].
+      + rewrite He in Hr. discriminate.
+      + destruct (SInv_live true s' o' HI') as (He' & _). rewrite He' in Hr.
+        pose proof (zlen_nonneg out). eapply (IH true s' _ _ o' e HI'); [|exact Hr]. lia.
+  Qed.
+
+  Lemma read_err st s o sz e : SInv st s o -> 0 < sz -> lzma2_read s sz = Err e -> err_kind e.
+  Proof.
+    intros HI Hsz Hr. destruct (SInv_live st s o HI) as (He & Herr).
+    rewrite l2_read_live in Hr by assumption. eapply loop_err; [exact HI | | exact Hr]. lia.
+  Qed.
+
+  Lemma err_kind_nonzero e : err_kind e -> e <> 0.
+  Proof. unfold err_kind, E_INVALID_INPUT, E_UNEXPECTED_EOF, E_OTHER. lia. Qed.
+
   (* ---- from a read history to the specification ("completeness") ------------------------------- *)
   Lemma loop_comp : forall fuel st s len acc o res s1,
     SInv st s o -> 0 <= len -> lzma2_read_loop fuel s len acc = Ok (res, s1) ->
@@ -808,6 +909,32 @@ Section Sim.
       destruct (Z.eqb_spec (zlen out) 0) as [Hz|Hnz]; [lia|].
       destruct (IH st1 s1 _ all (rev_append out acc) o1 res stt s_end E3 Hnext Ha Hr Hend) as (data & D1 & D2 & D3 & D4).
       exists (out ++ data). rewrite E4, D1, D2, l2_rev_rev_append, <- app_assoc. auto.
+  Qed.
+
+  (* status 0 alone: the end marker was reached *)
+  Lemma read_all_comp0 : forall fuel st s sizes all acc o res s_end,
+    SInv st s o -> Forall (fun z => 0 < z) sizes -> Forall (fun z => 0 < z) all ->
+    lzma2_read_all fuel s sizes all acc = Ok (res, 0, s_end) ->
+    m_end_reached s_end = true.
+  Proof.
+    induction fuel as [|f IH]; intros st s sizes all acc o res s_end HI Hs Ha Hr; [discriminate|].
+    destruct (l2_next_pos sizes all Hs Ha) as (Hsz & Hnext).
+    rewrite l2_read_all_step in Hr.
+    destruct (lzma2_read s (fst (l2_next sizes all))) as [[out s1]|e|e|] eqn:Hread; try discriminate.
+    2:{ inversion Hr; subst. exfalso. apply (err_kind_nonzero 0); [|reflexivity].
+        eapply read_err; [exact HI | exact Hsz | exact Hread]. }
+    destruct (Z.ltb_spec 0 (fst (l2_next sizes all))) as [_|X]; [|lia]. cbn [andb] in Hr.
+    destruct (read_comp st s o _ out s1 HI Hsz Hread) as [(E1 & E2 & E3) | (E1 & E2 & st1 & o1 & E3 & E4)].
+    - destruct (Z.eqb_spec (zlen out) 0) as [Hz|Hnz].
+      + inversion Hr; subst. exact E1.
+      + destruct f as [|f']; [discriminate|].
+        rewrite (read_all_ended (m_in s1) f' s1 _ all (rev_append out acc)) in Hr.
+        * inversion Hr; subst. exact E1.
+        * split; [exact E1|]. split; [exact E2 | reflexivity].
+        * exact Hnext.
+        * exact Ha.
+    - destruct (Z.eqb_spec (zlen out) 0) as [Hz|Hnz]; [lia|].
+      exact (IH st1 s1 _ all (rev_append out acc) o1 res s_end E3 Hnext Ha Hr).
   Qed.
 
   (* ---- from the specification to every read history ("soundness") ------------------------------- *)
